@@ -21,7 +21,7 @@ fn seeded(buf: [u8; 24], fill: usize, cursor: usize, base: usize, root_size: usi
     it
 }
 
-/// J junk bytes, then a planted valid child `[0x82, 0x81, v]`.
+/// J junk bytes, then a planted valid child `[0x82, 0x80]`.
 fn recover_after_junk<const J: usize>() {
     // symbolic: the junk bytes, the child's payload, the bytes behind it (stale), Root's size; the absolute
     // offset is a constant (it only shifts every reported position) and the bytes before the cursor are never read
@@ -41,17 +41,18 @@ fn recover_after_junk<const J: usize>() {
         i += 1;
     }
     // the junk run must not *contain* an acceptable header start either (J == 2: second junk byte)
+    // the planted valid child: an empty unsigned element `[U, size 0]`, then end of input
     buf[cursor + J] = U as u8;
-    buf[cursor + J + 1] = 0x81;
-    let fill = cursor + J + 3;
+    buf[cursor + J + 1] = 0x80;
+    let fill = cursor + J + 2;
     let root_size: usize = kani::any();
     // premise: the planted tag, shifted by J, still fits Root at its ORIGINAL size
-    kani::assume(root_size >= J + 3 && root_size < (1usize << 40));
+    kani::assume(root_size >= J + 2 && root_size < (1usize << 40));
     let mut it = seeded(buf, fill, cursor, base, root_size);
     let start_abs = base + cursor;
     kani::cover!(buf[cursor] == 0, "zero junk byte reached");
     kani::cover!(buf[cursor] == 0x40, "junk byte that starts a longer id reached");
-    kani::cover!(root_size == J + 3, "tight fit reached");
+    kani::cover!(root_size == J + 2, "tight fit reached");
 
     let r = it.try_recover();
 
@@ -60,7 +61,7 @@ fn recover_after_junk<const J: usize>() {
     assert!(it.verif_stack().len() == 1 && it.verif_stack()[0].size == EBMLSize::Known(root_size + J), "C14/C05a: enclosing known sizes grow by the junk length");
     assert!(it.verif_stack()[0].data_start == base + 2 && it.verif_stack()[0].tag_start == base, "C14/C05a: enclosing master's offsets are untouched");
     let h = it.verif_peek_valid_tag_header();
-    assert!(matches!(&h, Ok((id, _, EBMLSize::Known(1), 2)) if *id == U), "C14/C05a: the next header is the planted tag");
+    assert!(matches!(&h, Ok((id, _, EBMLSize::Known(0), 2)) if *id == U), "C14/C05a: the next header is the planted tag");
     core::mem::forget(h);
     core::mem::forget(r);
     core::mem::forget(it);
